@@ -4,12 +4,17 @@ import PdfModel.Props.C05
 /-!
 # C16 — every encoder is inverted by its decoder and emits the standard format
 
-`encode_hex` and `encode_85` are modelled completely (`encodeHex`, `encode85` in `Model/Enc.lean`); the
-Flate and LZW encoders are calls into libflate / weezl and appear as the parameters `X.zlibEncode`,
-`X.lzwEncode` with the assumed round-trip property as an explicit hypothesis of the theorem.
-"Emits the standard format" is membership in the C05 relations (`EncodesToHex`, `EncodesTo85`: the set
-of all texts a conforming encoder may produce), EOD markers included; by the C05 theorems anything in
-those relations is decoded to the original bytes — by this decoder and by any other conforming one.
+`encode_hex` and `encode_85` are modelled completely (`encodeHex`, `encode85` in `Model/Enc.lean`). The
+Flate encoder is a call into libflate and appears as the parameter `X.zlibEncode` with the assumed
+round-trip property as an explicit hypothesis (`hflate`) — the only third-party hypothesis left.
+LZW: the decoder is modelled (`Model/Lzw.lean`) and proved to invert every conforming encoding (C05); the
+greedy encoder of `Spec/Lzw.lean` is proved to conform (`lzw_decode_encode`); for weezl's own encoder
+(`X.lzwEncode`) the hypothesis `hlzw` is a *conformance obligation* — its output lies in the encoder
+relation — which the stream `c16.lzw.encode` checks on the real crate with the sound membership test.
+"Emits the standard format" is membership in the C05 relations (`EncodesToHex`, `EncodesTo85`,
+`EncodesToLzw`: the set of all texts a conforming encoder may produce), EOD markers included; by the C05
+theorems anything in those relations is decoded to the original bytes — by this decoder and by any other
+conforming one.
 -/
 
 namespace Enc
@@ -47,12 +52,13 @@ theorem encode85_zero_group (rest : Bytes) :
   simp [encode85Go, h1]
 
 /-- **Every encodable filter**: whenever `encode` succeeds, `decode` with the same filter returns the
-    input — for the ASCII filters unconditionally, for Flate and LZW under the hypothesis that the
-    third-party decompressor inverts the third-party compressor. A requested predictor or
-    EarlyChange ≠ 0 is refused by `encode` (an error), never silently ignored. -/
+    input — for the ASCII filters unconditionally; for LZW provided weezl's encoder emits a conforming
+    stream (`hlzw`: membership in the relation, checked on the crate by `c16.lzw.encode`; the decoder side
+    is a theorem); for Flate under the hypothesis that libflate's inflate inverts its deflate. A requested
+    predictor or EarlyChange ≠ 0 is refused by `encode` (an error), never silently ignored. -/
 theorem decode_encode (X : Ext)
     (hflate : ∀ x, X.inflateZlib (X.zlibEncode x) = some x)
-    (hlzw : ∀ x y, X.lzwEncode x = some y → X.lzw false y = some x)
+    (hlzw : ∀ x y, X.lzwEncode x = some y → LzwSpec.EncodesToLzw false x y)
     (f : Filter) (x y : Bytes) (h : encode X x f = .ok y) : decode X y f = .ok x := by
   cases f with
   | asciiHex =>
@@ -86,13 +92,25 @@ theorem decode_encode (X : Ext)
           have hnp : ¬ p.predictor ≥ 10 := by omega
           have hn2 : ¬ p.predictor = 2 := by omega
           have he0 : p.earlyChange = 0 := by simpa using he
-          simp [decode, lzwDecode, he0, hlzw x d hx, unpredict, hnp, hn2]
+          simp [decode, lzwDecode, he0, Lzw.decode_of_encodesToLzw false (hlzw x d hx), unpredict, hnp, hn2]
   | runLength => simp [encode] at h
   | jpx => simp [encode] at h
   | dct => simp [encode] at h
   | ccittFax => simp [encode] at h
   | jbig2 => simp [encode] at h
   | crypt => simp [encode] at h
+
+/-- **LZW round trip for the executable greedy encoder** (clear-table first, longest match, clear-table
+    when the table is full, EOD, zero padding), both EarlyChange values: its output conforms and the
+    decoder returns the input -/
+theorem lzw_decode_encode (early : Bool) (bs : Bytes) :
+    LzwSpec.EncodesToLzw early bs (LzwSpec.encodeGreedy early bs) ∧
+    Lzw.decode early (LzwSpec.encodeGreedy early bs) = .ok bs :=
+  ⟨LzwSpec.encodeGreedy_conforms early bs, Lzw.decode_of_encodesToLzw early (LzwSpec.encodeGreedy_conforms early bs)⟩
+
+/-- the greedy encoder reproduces the example of ISO 32000-1 §7.4.4.2 bit for bit -/
+example : LzwSpec.encodeGreedy true [45, 45, 45, 45, 45, 65, 45, 45, 45, 66]
+    = [0x80, 0x0B, 0x60, 0x50, 0x22, 0x0C, 0x0C, 0x85, 0x01] := by decide
 
 /-- the two modelled encoders never panic (`encode_nibble`'s `unreachable!()` and the `u8` addition in
     `a85` cannot be reached) -/
